@@ -104,7 +104,7 @@ namespace igris
 {
     static inline uint8_t hex2half(char c)
     {
-        return (uint8_t)(c <= '9' ? c - '0' : c - 'A' + 10);
+        return (uint8_t)(c <= '9' ? c - '0' : c >= 'a' ? c - 'a' + 10 : c - 'A' + 10);
     }
 
     static inline char half2hex(uint8_t n)
